@@ -61,6 +61,9 @@ func (msg *Message) SetArray(array *Array) *Message {
 
 // IsType returns true if the message type is the specified type, otherwise false.
 func (msg *Message) IsType(t MessageType) bool {
+	if msg == nil {
+		return false
+	}
 	return msg.Type == t
 }
 
@@ -91,6 +94,9 @@ func (msg *Message) IsArray() bool {
 
 // IsNil returns true if the message type is bulk and the message bytes are nil, otherwise false.
 func (msg *Message) IsNil() bool {
+	if msg == nil {
+		return true
+	}
 	if !msg.IsBulk() {
 		return false
 	}
@@ -99,6 +105,9 @@ func (msg *Message) IsNil() bool {
 
 // Bytes returns the message raw bytes.
 func (msg *Message) Bytes() ([]byte, error) {
+	if msg == nil {
+		return nil, ErrNil
+	}
 	return msg.bytes, nil
 }
 
@@ -114,6 +123,9 @@ func (msg *Message) Append(arrayMsg *Message) error {
 
 // String returns the message string if the message type is string, otherwise it returns an error.
 func (msg *Message) String() (string, error) {
+	if msg == nil {
+		return "", ErrNil
+	}
 	switch msg.Type {
 	case StringMessage, BulkMessage:
 		if msg.bytes == nil {
@@ -128,6 +140,9 @@ func (msg *Message) String() (string, error) {
 
 // Error returns the message error if the message type is error, otherwise it returns an error.
 func (msg *Message) Error() (error, error) {
+	if msg == nil {
+		return nil, ErrNil
+	}
 	switch msg.Type {
 	case ErrorMessage:
 		return errors.New(string(msg.bytes)), nil
@@ -139,6 +154,9 @@ func (msg *Message) Error() (error, error) {
 
 // Integer returns the message integer if the message type is integer, otherwise it returns an error.
 func (msg *Message) Integer() (int, error) {
+	if msg == nil {
+		return 0, ErrNil
+	}
 	switch msg.Type {
 	case IntegerMessage, StringMessage, BulkMessage:
 		return strconv.Atoi(string(msg.bytes))
@@ -150,6 +168,9 @@ func (msg *Message) Integer() (int, error) {
 
 // Array returns the message array if the message type is array, otherwise it returns an error.
 func (msg *Message) Array() (*Array, error) {
+	if msg == nil {
+		return nil, ErrNil
+	}
 	switch msg.Type {
 	case ArrayMessage:
 		return msg.array, nil
@@ -161,6 +182,10 @@ func (msg *Message) Array() (*Array, error) {
 
 // RESPBytes returns the RESP byte representation.
 func (msg *Message) RESPBytes() ([]byte, error) {
+	if msg == nil {
+		return nil, ErrNil
+	}
+
 	var respBytes bytes.Buffer
 
 	switch msg.Type {
@@ -170,7 +195,12 @@ func (msg *Message) RESPBytes() ([]byte, error) {
 			return nil, fmt.Errorf(errorUnknownMessageType, msg.Type)
 		}
 		respBytes.WriteByte(b)
-		respBytes.Write(msg.bytes)
+		for _, c := range msg.bytes {
+			if c == cr || c == lf {
+				c = ' '
+			}
+			respBytes.WriteByte(c)
+		}
 		respBytes.WriteRune(cr)
 		respBytes.WriteRune(lf)
 	case BulkMessage:
@@ -200,6 +230,8 @@ func (msg *Message) RESPBytes() ([]byte, error) {
 			return nil, err
 		}
 		respBytes.Write(bytes)
+	default:
+		return nil, fmt.Errorf(errorUnknownMessageType, msg.Type)
 	}
 
 	return respBytes.Bytes(), nil
